@@ -694,18 +694,23 @@ class NetWorld(World):
             raise Skip()            # closed geometries: division by zero in the simplifier (C16, not claimed)
         if any(p == q for e in m["edges"] for p, q in zip(e["pts"], e["pts"][1:])):
             raise Skip()
+        for e in m["edges"]:
+            # nothing but addEdge / simplify / reload may have touched the stored geometries
+            pts = [[o.position.getX(), o.position.getY()] for o in net.getEdge(e["id"]).geom]
+            if pts != e["pts"]:
+                self.fail("C07", "network.geometry_changed", "the stored geometry of edge %s changed although no "
+                          "step edited the network (a result handed to the caller shares objects with it)" % e["id"],
+                          e["pts"], pts)
+                return
         _, exc = self.call(net.simplify, st["tol"], 1)
         if exc is not None:
             return self._unexpected("C07", exc, "Network.simplify")
         for k, e in enumerate(m["edges"]):
             g = net.getEdge(e["id"]).geom
             pts = [[o.position.getX(), o.position.getY()] for o in g]
-            if len(pts) < 2 or pts[0] != e["pts"][0] or pts[-1] != e["pts"][-1]:
-                self.note("simplify moved an end point of edge %s (not judged)" % e["id"])
-                raise HarnessError("simplify changed the end points of an edge: model cannot follow")
             if len(pts) != len(e["pts"]):
                 self.probe("edge_geometry_changed_by_simplify")
-            e["pts"] = pts
+            e["pts"] = pts          # adopted, whatever the simplifier kept (C16's subject)
         m["all_abs"] = False
         m["index"] = None if m["index"] is None else m["index"]
 
